@@ -246,7 +246,17 @@ Fixpoint dumpl (depth : nat) (n : str) (l : lnode) {struct l} : list str :=
   end.
 
 (* ---------- scripts ---------- *)
-Inductive cmd := CReg (r : reg) | CLoad (data : str) | CDump.
+(* a module may attach its hook to nodes the file created (log.c does so for the children of `logs`): hook every node *)
+Fixpoint hookall (l : lnode) {struct l} : lnode :=
+  match l with
+  | LStr s p _ d v sub pa => LStr s p true d v sub pa
+  | LIna s p _ dh ds h sv => LIna s p true dh ds h sv
+  | LList s p _ d v => LList s p true d v
+  | LObj s p _ ks => LObj s p true ((fix go (l : list (str * lnode)) : list (str * lnode) := match l with [] => [] | (n, x) :: r => (n, hookall x) :: go r end) ks)
+  end.
+Definition is_logs (n : str) : bool := match scmp n (S_ "logs") with Eq => true | _ => false end.
+
+Inductive cmd := CReg (r : reg) | CLoad (data : str) | CDump | CHookAll.
 Definition hookline (e : ev) : str := S_ "HOOK " ++ [hexd (fst e)] ++ [x20] ++ snd e.
 Definition root0 : list (str * lnode) :=
   [(S_ "logs", LObj true false false [(S_ "verbose_timestamp", LStr true false false (Some (S_ "true")) (Some (S_ "true")) 1 (PInt 1))])].
@@ -255,6 +265,7 @@ Definition exec (st : list (str * lnode)) (c : cmd) : list (str * lnode) * list 
   match c with
   | CReg r => let '(k, e) := do_reg st r in (k, map hookline e ++ [S_ "REG"])
   | CDump => (st, flat_map (fun nv => dumpl 0 (fst nv) (snd nv)) st ++ [S_ "END"])
+  | CHookAll => (map (fun nv => if is_logs (fst nv) then nv else (fst nv, hookall (snd nv))) st, [S_ "REG"])
   | CLoad data =>
       match parse data with
       | inl _ => (st, [S_ "LOAD ERR"] ++ flat_map (fun nv => dumpl 0 (fst nv) (snd nv)) st ++ [S_ "END"])
